@@ -349,6 +349,9 @@ def pdhg_setup(case, rng, g=None, M=None, y=None):
         AH = lambda v: M.conj().T @ v          # noqa: E731
         shape_x, shape_u = [n], [m]
     proxfc = sp.prox.L2Reg(shape_u, 1, y=-y.reshape(shape_u))
+    if sum(case.get("rs", [0])) % 2 == 1:
+        # the same conjugate prox obtained through Moreau's identity from prox_f itself
+        proxfc = sp.prox.Conj(sp.prox.L2Reg(shape_u, 1, y=y.reshape(shape_u)))
     return M, y, nA, tau, sigma, Tv, Sv, A, AH, shape_x, shape_u, proxfc, dt
 
 
